@@ -934,6 +934,17 @@ func (g *GoFakeS3) putMultipartUploadPart(bucket, object string, uploadID Upload
 
 	defer r.Body.Close()
 	var rdr io.Reader = r.Body
+	contentLength := r.ContentLength
+
+	if r.Header.Get("X-Amz-Content-Sha256") == "STREAMING-AWS4-HMAC-SHA256-PAYLOAD" {
+		// The part arrives in the aws-chunked framing, like a streaming PUT
+		// (see createObject): what is stored is the decoded payload.
+		rdr = newChunkedReader(rdr)
+		contentLength, err = strconv.ParseInt(r.Header.Get("X-Amz-Decoded-Content-Length"), 10, 64)
+		if err != nil || contentLength <= 0 {
+			return ErrMissingContentLength
+		}
+	}
 
 	if g.integrityCheck {
 		md5Base64 := r.Header.Get("Content-MD5")
@@ -950,7 +961,7 @@ func (g *GoFakeS3) putMultipartUploadPart(bucket, object string, uploadID Upload
 		}
 	}
 
-	etag, err := g.uploader.UploadPart(bucket, object, uploadID, int(partNumber), r.ContentLength, rdr)
+	etag, err := g.uploader.UploadPart(bucket, object, uploadID, int(partNumber), contentLength, rdr)
 	if err != nil {
 		return err
 	}
